@@ -195,6 +195,27 @@ void h_query_calibration(void)
     free(vcp);
 }
 
+/* ------------------------------------------------------------ vnacal_free */
+#ifdef H_FREE
+void vnacal_new_free(vnacal_new_t *vnp)
+{
+    (void)vnp;
+    CHECK(0, "no vnacal_new_t exists in this harness");
+}
+
+void h_free_vnacal(void)
+{
+    IN(bool, errfn);
+    vnacal_t *vcp = mk_vcp_min(errfn);
+    MK_CALTABLE(vcp);
+
+    CHECK(wf_caltable(vcp), "mk_caltable builds only wf tables");
+    vnacal_free(vcp);
+    REACH("vnacal_free returned");
+    /* --memory-leak-check: every calibration, the slot vector and the vnacal_t are gone */
+}
+#endif
+
 /* ============================================================== parameters */
 static int ext[VC_PRM_MAX];
 
